@@ -58,10 +58,16 @@ def gen(rng, tier, i):
                     k = seq.get(c, 0) + 1; seq[c] = k
                     for _ in range(rng.randint(0, 3)):
                         data += 'c%d_%d\r\n' % (c, k); k += 1
-                    data += 'do %s 0 rec armed\r\n' % rng.choice(('getchar', 'inputto'))
-                    data += rng.choice(('y', 'yes', '', 'c%d_ans' % c)) + '\r\n'
-                    for _ in range(rng.randint(1, 4)):
-                        data += 'c%d_%d\r\n' % (c, k); k += 1
+                    arm = rng.choice(('getchar', 'inputto'))
+                    data += 'do %s 0 rec armed\r\n' % arm
+                    if arm == 'getchar' and rng.random() < 0.4:
+                        # the key was pressed ahead of the prompt and nothing follows it: in single-character mode that one
+                        # byte is a complete command
+                        data += rng.choice(('y', 'n', 'yz'))
+                    else:
+                        data += rng.choice(('y', 'yes', '', 'c%d_ans' % c)) + '\r\n'
+                        for _ in range(rng.randint(1, 4)):
+                            data += 'c%d_%d\r\n' % (c, k); k += 1
                     seq[c] = k
                     oneshot_done.add(c)
                     steps.append(send(c, data, None))
@@ -164,6 +170,7 @@ def check(plan, res):
                 # armed by a one-shot get_char()/input_to(): the next buffered line, empty or not, is the answer
                 j = stream.find(b'\r\n', pos, gotc)
                 if j >= 0 and j + 2 <= gotc: exp = (oneshot, stream[pos:j].decode('latin-1'), j + 2)
+                elif oneshot == 'CHAR' and gotc > pos and b'\r' not in stream[pos:gotc]: exp = ('CHAR', stream[pos:gotc].decode('latin-1'), gotc)   # any byte is a command in that mode
             else:
                 p2 = pos
                 while True:
